@@ -45,5 +45,13 @@ func classify(v *report.Violation) {
 	case v.Part == "matrix:subscriber-manager" && v.Site == "STOP" && firstTerm(v) == "STOP" &&
 		(v.Kind == "address-not-released" || v.Kind == "session-still-present" || v.Kind == "nat-not-removed" || v.Kind == "qos-not-removed" || v.Kind == "accounting-stop-count"):
 		v.Class = "C16-K3-subscriber-manager-stop-keeps-sessions"
+	// C16-K4 (= C08-K1): an Accounting-Stop that could not be delivered lives only in the in-memory retry
+	// queue; a CRASH during the outage loses it. Matches only: crash configuration, the victim's session, and
+	// the complaint that it got NO Stop over both lifetimes (a duplicate Stop, or a missing Stop after a
+	// graceful shutdown or a healed outage, does not match).
+	case v.Part == "matrix:subscriber-manager" && traceHas(v, "cfg=radius/outage=crash") && v.Kind == "accounting-stop-count" &&
+		strings.HasSuffix(v.Site, ";CRASH(unreachable);RESTART") && strings.Contains(v.Detail, "victim's session ") &&
+		strings.Contains(v.Detail, " got 1 Accounting-Start and 0 Accounting-Stop "):
+		v.Class = "C16-K4-undelivered-stop-lost-by-crash"
 	}
 }
